@@ -1,7 +1,7 @@
 """C02 - a component fires iff its requirements are met; arguments bind in declaration order."""
 import ast
 
-from ..model import (AnalysisError, FUNC_TYPES, U, call_attr, call_name, dotted, enclosing, guard_texts, short, walk_body,
+from ..model import (AnalysisError, FUNC_TYPES, U, call_attr, call_name, dotted, enclosing, guard_texts, guards_ex, short, walk_body,
                      walk_local, ancestors)
 from ..util import params, find_calls, assigns_to, trace, syn_dominates, stmt_of, has_exit
 from .c01 import main_loop, delegate_process_calls, _is_component_type
@@ -390,6 +390,36 @@ def r5_enable(cx):
                construct=short(dd[0]) if dd else "(no defaultdict rebuild)")
 
 
+def r5b_nothing_else_suppresses(cx):
+    """'invoked if and only if it is enabled and its requirements are met': the execution call may be guarded by the four engine conditions (not yet in
+    the broker, member of the evaluated graph, registered, enabled) and by nothing else.  Any further condition - an earlier failure recorded for
+    the component, an earlier visit, a timing entry - keeps an enabled component with satisfied requirements from being invoked."""
+    cx.rule("C02.R5b", "nothing but the four engine conditions guards the execution call", floor=1)
+    m = cx.repo.module(DR)
+    fn = m.func("run_components", "C02.R5")
+    loop, comp, comps, broker = main_loop(cx, fn)
+    calls, deleg_names = delegate_process_calls(loop, comp)
+    allowed = set([("%s in %s" % (comp, broker), False), ("%s in %s" % (comp, comps), True), ("%s in DELEGATES" % comp, True), ("is_enabled(%s)" % comp, True), ("ENABLED[%s]" % comp, True),
+                   ("get_delegate(%s)" % comp, True), ("DELEGATES.get(%s)" % comp, True), ("%s in %s.instances" % (comp, broker), False), ("%s.get(%s)" % (broker, comp), False)])
+    for d in deleg_names:
+        allowed.add((d, True))
+        allowed.add(("%s is None" % d, False))
+        allowed.add(("%s is not None" % d, True))
+    for c in calls:
+        extra = []
+        for e, pol, origin in guards_ex(c, stop=loop):
+            t = U(e)
+            if (t, pol) in allowed:
+                continue
+            # compound atoms that only restate allowed ones
+            parts = [U(v) for v in e.values] if isinstance(e, ast.BoolOp) else None
+            if parts and isinstance(e.op, ast.And) and pol and all((p_, True) in allowed or (p_[4:], False) in allowed and p_.startswith("not ") for p_ in parts):
+                continue
+            extra.append((t, pol))
+        cx.require(not extra, c, "the execution call is guarded by the four engine conditions only (nothing else keeps an enabled component with satisfied requirements from being invoked)",
+                   construct="extra condition: %s is %s" % extra[0] if extra else short(c, 70))
+
+
 INVOKE_CONVENTIONS = {
     # frozen conventions, one line of reason each
     DR + ":ComponentType": "the ordered binder itself (C02.R2)",
@@ -472,6 +502,7 @@ def run(cx):
     cx.guard(r3_iff)
     cx.guard(r4_process_order, mods)
     cx.guard(r5_enable)
+    cx.guard(r5b_nothing_else_suppresses)
     cx.guard(r6_invoke_overrides, mods)
     cx.guard(r7_reporting)
     # 'requirements are met' is judged when the component's turn comes: that turn must come after its dependencies ran (order provenance, C01.R5)
